@@ -50,10 +50,10 @@ func (d Doc) Denote() string {
 					cs = append(cs, schar{ch, r.Style})
 				}
 			}
-			for len(cs) > 0 && unicode.IsSpace(cs[0].r) {
+			for len(cs) > 0 && Trimmable(cs[0].r) {
 				cs = cs[1:]
 			}
-			for len(cs) > 0 && unicode.IsSpace(cs[len(cs)-1].r) {
+			for len(cs) > 0 && Trimmable(cs[len(cs)-1].r) {
 				cs = cs[:len(cs)-1]
 			}
 			b.WriteString("|")
@@ -70,6 +70,13 @@ func (d Doc) Denote() string {
 	}
 	return b.String()
 }
+
+// Trimmable: white space that SubRip does not carry at the outer ends of a line. The no-break space is
+// NOT trimmable: the property says it survives unchanged (it travels as the &nbsp; entity).
+func Trimmable(r rune) bool { return unicode.IsSpace(r) && r != '\u00a0' }
+
+// TrimLine removes trimmable white space at both ends.
+func TrimLine(s string) string { return strings.TrimFunc(s, Trimmable) }
 
 // ---------- rendering ----------
 
